@@ -1,11 +1,69 @@
-import FrappyModel.Datatypes.Import
-import FrappyModel.Spec.C01
+import FrappyProofs.Lemmas.DatatypesSound
+import FrappyProofs.Lemmas.DatatypesTotal
+import FrappyProofs.Lemmas.DatatypesMonitor
 import FrappyModel.Generated.C01
 /-
 C01 — property theorems (nothing but property theorems and their non-vacuity examples).
+
+For every float carrier `F` satisfying `LawfulFloatOps`, every datatype tree `dt` with `dt.WF`
+(what the constructors enforce), every JSON value `j` / Python value `v` offered, every previous
+value `prev` that is absent or in the value set.
 -/
+set_option linter.unusedSectionVars false
 namespace Frappy.Props.C01
-open Frappy.Spec.C01 Frappy.Datatypes
+open Frappy.Spec.C01 Frappy.Datatypes Frappy.Lemmas.C01
+
+variable {F : Type} [FloatOps F] [LawfulFloatOps F]
+
+/-! ## never an out-of-set value -/
+
+/-- a value accepted by `validate` (from a driver) lies in the declared value set -/
+theorem validate_sound (dt : DType F) (hwf : dt.WF) (v : PVal F) (prev : Option (PVal F))
+    (hprev : ∀ p, prev = some p → InSet dt p) (r : PVal F) (h : validate dt v prev = .ok r) : InSet dt r :=
+  conv_sound dt v prev r hwf hprev h
+
+/-- a value accepted from the wire (`import_value` then `validate`) lies in the declared value set -/
+theorem accept_sound (dt : DType F) (hwf : dt.WF) (j : JVal F) (prev : Option (PVal F))
+    (hprev : ∀ p, prev = some p → InSet dt p) (r : PVal F) (h : acceptWire dt j prev = .ok r) : InSet dt r := by
+  unfold acceptWire at h
+  split at h
+  · cases h
+  · exact validate_sound dt hwf _ prev hprev r h
+
+/-! ## never any other kind of exception -/
+
+/-- `validate` on any Python value: a value or a bad-value error -/
+theorem validate_total (dt : DType F) (v : PVal F) (prev : Option (PVal F)) (c : String) :
+    validate dt v prev ≠ .error (.other c) := conv_total .validate dt v prev c
+
+/-- `__call__` on any Python value -/
+theorem call_total (dt : DType F) (v : PVal F) (c : String) : call dt v ≠ .error (.other c) :=
+  conv_total .call dt v none c
+
+/-- `import_value` on any JSON value -/
+theorem import_total (dt : DType F) (j : JVal F) (c : String) : importValue dt j ≠ .error (.other c) :=
+  importValue_total dt j c
+
+/-- what the dispatcher does with a `change` request -/
+theorem accept_total (dt : DType F) (j : JVal F) (prev : Option (PVal F)) (c : String) :
+    acceptWire dt j prev ≠ .error (.other c) := acceptWire_total dt j prev c
+
+/-! ## the monitors decide the specification -/
+
+/-- the value-set monitor never accepts a value outside the declared value set -/
+theorem inSetB_sound (dt : DType F) (v : PVal F) (h : inSetB dt v = true) : InSet dt v := by
+  have h' : InSetM dt v := of_decide_eq_true h
+  exact inSetG_mono (fun _ _ => onGrid_of_near) dt v h'
+
+theorem inSetB_iff (dt : DType F) (v : PVal F) : inSetB dt v = true ↔ InSetM dt v := decide_eq_true_iff
+
+theorem denotesB_iff (dt : DType F) (prev : Option (PVal F)) (o r : PVal F) :
+    denotesB dt prev o r = true ↔ Denotes dt prev o r := decide_eq_true_iff
+
+theorem wireDenotesB_iff (dt : DType F) (j : JVal F) (v : PVal F) :
+    wireDenotesB dt j v = true ↔ WireDenotes dt j v := decide_eq_true_iff
+
+/-! ## constants of the source -/
 
 /-- the limit built into `DType.WF` for integer limits is the one of the source (`UNLIMITED`) -/
 theorem intLimit_is_unlimited : DType.intLimit = Generated.C01.unlimited ∧
